@@ -1,6 +1,9 @@
 """C07 - the demes always form a well-formed tree; sprout seeds come from the parent."""
 from .. import plan as P
+import random as _random
+
 from ..sim import Monitor
+from .common import terraced_scenario
 from .common import all_demes, fb, flat, gb
 
 PROP = "C07"
@@ -11,7 +14,7 @@ RULE = ("Plans: 1-3 levels with any engine per level incl. a custom deme class r
         "generator), hibernation on/off, LSCs that stop parents, stop-signal and LSC-verdict faults.")
 NONTRIVIAL_RULE = ">= 1 sprouting round with >= 1 new deme whose seed provenance was judged, and >= 2 boundaries structurally judged"
 EXPECTED_PROBES = ["c07-structure-judged", "c07-seeds-provenance-judged", "c07-new-child-judged", "c07-seed-in-child-population",
-                   "c07-custom-deme-seen", "c07-three-levels-populated", "c07-local-method-seed-judged", "c07-derived-custom-config-judged"]
+                   "c07-custom-deme-seen", "c07-three-levels-populated", "c07-local-method-seed-judged", "c07-derived-custom-config-judged", "c07-derived-of-custom-config-judged"]
 ASSUMPTIONS = ["only new config classes are registered in config_class_to_deme_class (as documented); overriding a built-in mapping is not exercised"]
 
 CLS = {"ea": "EADeme", "de": "DEDeme", "shade": "SHADEDeme", "cma": "CMADeme", "local": "LocalDeme", "lhs": "LHSDeme",
@@ -31,6 +34,14 @@ def gen(seed, tier):
                 l["custom_derived"] = True
         if any(l.get("custom_derived") for l in pl["levels"]):
             pl["entry"] = "tree"  # hms() has no config_class_to_deme_class parameter
+    if "levels" in pl and seed % 9 == 4:
+        pl = terraced_scenario(pl, _random.Random(seed ^ 0x7E44))
+    # two registered custom config classes, one derived from the other; some levels use the derived one
+    if "levels" in pl and seed % 5 in (1, 2):
+        cl = [l for l in pl["levels"] if l["engine"] == "custom"]
+        for i, l in enumerate(cl):
+            if seed % 5 == 1 or i == len(cl) - 1:
+                l["custom_fine"] = True
     # the same custom config class mapped to ANOTHER deme class than an earlier tree of this process used
     if "levels" in pl and any(l["engine"] == "custom" for l in pl["levels"]) and seed % 3 == 0:
         pl["custom_variant"] = "B"
@@ -52,6 +63,9 @@ class C07Monitor(Monitor):
             if self.w.plan["levels"][level].get("custom_derived"):
                 self.w.probe("c07-derived-custom-config-judged")
                 return "CustomEADeme"
+            if self.w.plan["levels"][level].get("custom_fine"):
+                self.w.probe("c07-derived-of-custom-config-judged")
+                return "CustomFineDeme"
             if self.w.plan["levels"][level]["engine"] == "custom" and self.w.plan.get("custom_variant") == "B":
                 self.w.probe("c07-custom-class-remapped-judged")
                 return "CustomDemeB"
